@@ -1,88 +1,4 @@
-// ======================================================================================
-// fragment graph_types.rs - index newtypes, Direction, EdgeType, Node/Edge/Graph structs
-// (src/lib.rs, src/graph_impl/mod.rs)
-// ======================================================================================
-
-//@ item src/lib.rs | - | enum Direction
-#[derive(Clone, Copy, PartialEq, Eq)]
-#[repr(usize)]
-pub enum Direction {
-    /// An `Outgoing` edge is an outward edge *from* the current node.
-    Outgoing = 0,
-    /// An `Incoming` edge is an inbound edge *to* the current node.
-    Incoming = 1,
-}
-//@ end
-use Direction::{Outgoing, Incoming};
-
-impl PartialEqSpecImpl for Direction {
-    open spec fn obeys_eq_spec() -> bool { true }
-    open spec fn eq_spec(&self, other: &Self) -> bool { *self == *other }
-}
-
-impl Direction {
-    pub open spec fn k(self) -> int { match self { Direction::Outgoing => 0, Direction::Incoming => 1 } }
-    pub open spec fn opp(self) -> Direction { match self { Direction::Outgoing => Direction::Incoming, Direction::Incoming => Direction::Outgoing } }
-
-//@ item src/lib.rs | impl Direction | fn opposite
-    #[inline]
-    pub fn opposite(self) -> (r: Direction)
-        /*+*/ensures r == self.opp()/*-*/
-    {
-        match self {
-            Outgoing => Incoming,
-            Incoming => Outgoing,
-        }
-    }
-//@ end
-
-//@ item src/lib.rs | impl Direction | fn index
-    /// Return `0` for `Outgoing` and `1` for `Incoming`.
-    #[inline]
-    #[verifier::external_body]
-    pub fn index(self) -> (r: usize)
-        /*+*/ensures r == self.k()/*-*/
-    {
-        (self as usize) & 0x1
-    }
-//@ end
-}
-
-//@ item src/lib.rs | - | enum Directed
-/*R:D15 pub enum Directed {} */ pub struct Directed; /*-*/
-//@ end
-//@ item src/lib.rs | - | enum Undirected
-/*R:D15 pub enum Undirected {} */ pub struct Undirected; /*-*/
-//@ end
-
-//@ item src/lib.rs | - | trait EdgeType
-pub trait EdgeType {
-    /*+*/spec fn spec_is_directed() -> bool;/*-*/
-    fn is_directed() -> (r: bool)
-        /*+*/ensures r == Self::spec_is_directed()/*-*/;
-}
-//@ end
-
-//@ item src/lib.rs | - | impl EdgeType for Directed
-impl EdgeType for Directed {
-    /*+*/open spec fn spec_is_directed() -> bool { true }/*-*/
-    #[inline]
-    fn is_directed() -> bool {
-        true
-    }
-}
-//@ end
-
-//@ item src/lib.rs | - | impl EdgeType for Undirected
-impl EdgeType for Undirected {
-    /*+*/open spec fn spec_is_directed() -> bool { false }/*-*/
-    #[inline]
-    fn is_directed() -> bool {
-        false
-    }
-}
-//@ end
-
+// fragment graph_types.rs - index newtypes, Node/Edge/Graph structs, GraphError, index_twice (src/graph_impl/mod.rs)
 //@ item src/graph_impl/mod.rs | - | struct NodeIndex
 /// Node identifier.
 #[derive(Copy, Clone, PartialEq, Eq)]
@@ -95,9 +11,6 @@ pub struct NodeIndex<Ix = DefaultIx>(pub Ix);
 pub struct EdgeIndex<Ix = DefaultIx>(pub Ix);
 //@ end
 
-//@ item src/graph_impl/mod.rs | - | type DefaultIx
-pub type DefaultIx = u32;
-//@ end
 
 // D9: derived PartialEq is structural (trusted derive output)
 impl PartialEqSpecImpl for GraphError {
